@@ -134,10 +134,12 @@ def run_api_child(asan_src, reqs, extra_path=None, kcalls=None):
                 fh.write(json.dumps(r) + "\n")
             path = fh.name
         try:
-            p = subprocess.run([common.PY, os.path.join(AUX, "api_child.py"), path] +
-                               ([extra_path] if extra_path else []),
-                               stdout=subprocess.PIPE, stderr=subprocess.PIPE, text=True,
-                               env=env, timeout=3000, errors="replace")
+            # (the climate classes store / look up matrices in the working directory)
+            with tempfile.TemporaryDirectory(prefix="C20-cwd-") as cwd:
+                p = subprocess.run([common.PY, os.path.join(AUX, "api_child.py"), path] +
+                                   ([extra_path] if extra_path else []),
+                                   stdout=subprocess.PIPE, stderr=subprocess.PIPE, text=True,
+                                   env=env, timeout=3000, errors="replace", cwd=cwd)
         finally:
             os.unlink(path)
         cur, ready = None, False
@@ -531,6 +533,49 @@ def run(ctx):
         d1, d2 = dyadic(nprng, s1), dyadic(nprng, s2)
         add_api("tmi", f"call tmi {s1[0]} {s1[1]} {s2[0]} {s2[1]} 4 {enc_data(d1)} {enc_data(d2)}",
                 [A(d1, "float64"), A(d2, "float64")], [4], "surrogates-shape-differs", (s1, s2))
+    # caller arrays whose shape DIFFERS from the object's own, on real objects: every public method
+    # that forwards a caller-supplied array to a raw-pointer routine (the sizes handed to the C
+    # routine must be those of the array, not of the object)
+    for c in range(36 if quick else 160):
+        objN = rng.choice([2, 3, 4, 6, 7])
+        rel = ["fewer", "fewer", "more", "equal"][c % 4]
+        k = {"fewer": rng.randrange(1, objN), "more": objN + rng.randrange(1, 4), "equal": objN}[rel]
+        T = rng.choice([1, 2, 3, 5, 8, 10])            # (the object's own data have 8 samples)
+        an = nprng.randint(-8, 9, size=(T, k)) / 4.0 * 2.0 ** rng.choice([0, 0, -30, 30])
+        how = ["csm", "mi", "worker", "mi-dump", "csm", "mi"][(c // 4) % 6]
+        nb = rng.choice([1, 2, 5, 32, 64]) if how == "worker" else 32
+        cls = f"anomaly-has-{rel}-columns-than-object-nodes:{how}"
+        add_api("mi_obj", mi_model_request(an, nb, objN), [variant(an, fdt())], [objN, how, nb], cls,
+                (objN, T, k, how, nb, an.tobytes().hex()), True,
+                {"entry": "MutualInfoClimateNetwork(<%d nodes>).%s(anomaly %dx%d)" % (
+                    objN, {"csm": "calculate_similarity_measure", "mi": "mutual_information",
+                           "mi-dump": "mutual_information", "worker":
+                           "_cython_calculate_mutual_information"}[how], T, k)} if c < 8 else None)
+        if c % 3 == 0:
+            m, T2 = k, rng.choice([1, 2, 3, 5, 8])
+            ms = rng.choice([(m, T2), (m, T2), (objN, T2), (m, 8), (T2, m)])
+            mask = nprng.rand(*ms) < 0.7
+            an2 = dyadic(nprng, (m, T2), -1.0, 1, hit_ends=False)
+            add_api("spearman_obj", f"call spearman {ms[0]} {ms[1]} {m} {T2}",
+                    [variant(mask, "bool"), variant(an2, fdt())], [objN],
+                    f"anomaly-has-{rel}-rows-than-object-nodes:" + ("same-shape" if ms == (m, T2) else "mask-shape-differs"),
+                    (objN, ms, m, T2))
+        if c % 4 == 1:
+            s1 = (rng.randrange(1, 5), rng.randrange(1, 6))
+            s2 = s1 if rng.random() < 0.6 else (rng.randrange(1, 5), rng.randrange(1, 6))
+            own = (rng.randrange(1, 5), rng.randrange(2, 7))
+            d1, d2 = dyadic(nprng, s1), dyadic(nprng, s2)
+            if rng.random() < 0.5:
+                add_api("surr_obj", f"call pearson {s1[0]} {s1[1]} {s2[0]} {s2[1]}",
+                        [variant(d1, fdt()), variant(d2, fdt())], [own[0], own[1], "pearson", 0],
+                        "instance-data-differ:pearson", (own, s1, s2))
+            else:
+                nb = rng.choice([1, 2, 3, 32])
+                add_api("surr_obj", f"call tmi {s1[0]} {s1[1]} {s2[0]} {s2[1]} {nb} {enc_data(d1)} "
+                                    f"{enc_data(d2)}",
+                        [variant(d1, fdt()), variant(d2, fdt())], [own[0], own[1], "tmi", nb],
+                        "instance-data-differ:tmi", (own, s1, s2, nb, d1.tobytes().hex(),
+                                                     d2.tobytes().hex()))
     # (N <= 1 is rejected by the ResNetwork / GeoGrid constructors: oracle stream only)
     for N in [2, 3, 5] + ([] if quick else [4, 7]):
         Rm = np.triu(nprng.randint(1, 5, size=(N, N)).astype(float), 1)
@@ -628,7 +673,10 @@ def run(ctx):
     # T4: typed-buffer kernels at their own boundary (shapes at, above and below what the loops need)
     preqs, pmodel = pyx_kernel_requests(ctx, rng, quick)
 
-    allreqs = areqs + kreqs + oreqs + preqs
+    # T5: the nine wrappers of `_line_dist` at their own boundary (exact outcome)
+    lreqs5, lmodel5 = line_dist_requests(ctx, rng, nprng, quick)
+
+    allreqs = areqs + kreqs + oreqs + preqs + lreqs5
     nchunk = 4
     chunks = [allreqs[i::nchunk] for i in range(nchunk)]
     kcalls = []
@@ -647,7 +695,7 @@ def run(ctx):
             cls = "-"
             if q["id"].startswith("a"):
                 cls = ameta[int(q["id"][1:])][1]
-            elif q["id"].startswith("o") or q["id"].startswith("p"):
+            elif q["id"].startswith("o") or q["id"].startswith("p") or q["id"].startswith("l"):
                 cls = q.get("cls", "-")
                 if q["id"].startswith("p"):
                     cls = q["key"] + ":" + cls
@@ -700,6 +748,17 @@ def run(ctx):
         ctx.count(f"kernel-boundary:{m}:{o.split(':')[-1] if o.startswith('raise') else 'returned'}")
     ctx.correspond("typed-buffer kernels: IndexError / normal return == prediction from the generated "
                    "site lists", pmodel, pimpl)
+
+    limpl = []
+    for q in lreqs5:
+        r = ares[q["id"]]
+        o = r["outcome"]
+        limpl.append("oob" if r["reports"] or o == "crash" else
+                     "raise" if o == "raise:IndexError" else (o[3:] if o.startswith("ok:") else o))
+        ctx.count("line-dist-outcome:" + ("IndexError" if o == "raise:IndexError" else
+                                          "histogram" if o.startswith("ok:") else o))
+    ctx.correspond("_line_dist wrappers: IndexError / histogram == Lean subscript model (generated loop "
+                   "skeleton and index functions)", lmodel5, limpl)
 
     # kernel calls observed under the public API: do they satisfy the contracts the theorems assume?
     table = json.load(open(KTABLE)) if os.path.exists(KTABLE) else {}
@@ -781,6 +840,61 @@ def pyx_kernel_requests(ctx, rng, quick):
     return reqs, model
 
 
+LD_WRAPPERS = ["_vertline_dist", "_diagline_dist", "_white_vertline_dist", "_vertline_dist_sequential",
+               "_diagline_dist_sequential", "_vertline_dist_missingvalues", "_diagline_dist_missingvalues",
+               "_vertline_dist_sequential_missingvalues", "_diagline_dist_sequential_missingvalues"]
+
+
+def line_dist_requests(ctx, rng, nprng, quick):
+    """buffers exactly as `recurrence_plot.py` passes them, larger, one short on one axis, and
+    `n_time` beyond the buffers; contents: 0/1 (and 2) recurrence matrices with long lines, integer
+    embeddings with a half-integer threshold (exact distances), missing-value masks"""
+    reqs, model = [], []
+    for c in range(90 if quick else 700):
+        name = LD_WRAPPERS[c % 9] if c < 45 else rng.choice(LD_WRAPPERS)
+        seq, mv = "sequential" in name, "missingvalues" in name
+        n = rng.choice([0, 1, 2, 3, 3, 4, 5, 6, 8])
+        mode = rng.choice(["fit", "fit", "big", "hist-short", "rows-short", "cols-short", "mask-short",
+                           "n_time-larger"])
+        nt = n + (rng.randrange(1, 3) if mode == "n_time-larger" else 0)
+        h0 = max(0, n - 1) if mode == "hist-short" else n + (2 if mode == "big" else 0)
+        a0 = max(0, n - 1) if mode == "rows-short" else n + (1 if mode == "big" else 0)
+        m0 = max(0, n - 1) if mode == "mask-short" else n
+        dim = rng.choice([1, 1, 2, 3, 0]) if seq else 0
+        a1 = (dim if seq else n)
+        if mode == "cols-short":
+            a1 = max(0, a1 - 1)
+        elif mode == "big":
+            a1 += 1
+        dens = rng.choice([0.0, 0.3, 0.7, 0.9, 1.0])
+        if seq:
+            arr2 = nprng.randint(0, 3, size=(a0, a1)).astype(float)
+            eps2 = rng.choice([1, 3, 5, 0])
+            a2 = A(arr2, "float64")
+            rm, em, r0, r1, e0, e1 = "-", enc_imat(arr2.astype(int)) if a1 else "-", 1, 0, a0, a1
+        else:
+            arr2 = (nprng.rand(a0, a1) < dens).astype(np.int8)
+            if rng.random() < 0.15 and arr2.size:
+                arr2.flat[rng.randrange(arr2.size)] = 2        # neither black nor white
+            if rng.random() < 0.3:
+                arr2 = np.maximum(arr2, arr2.T) if a0 == a1 else arr2
+            eps2 = 0
+            a2 = A(arr2, "int8")
+            rm, em, r0, r1, e0, e1 = enc_imat(arr2) if a1 else "-", "-", a0, a1, 1, 0
+        mask = (nprng.rand(m0) < rng.choice([0.0, 0.2, 0.5])).astype(np.int8)
+        arrays = [A(np.zeros(h0), "int32"), a2] + ([A(mask, "bool")] if mv else [])
+        rid = f"l{len(reqs)}"
+        reqs.append({"id": rid, "fn": "linedist", "arrays": arrays, "args": [name, nt, eps2 / 2.0, dim],
+                     "cls": f"{name}:{mode}"})
+        model.append(f"linedist {name} {nt} {dim} {r0} {r1} {m0 if mv else 0} {e0} {e1} {h0} {rm} {em} "
+                     f"{eps2} {','.join(str(int(v)) for v in mask) if (mv and m0) else '-'}")
+        ctx.case(("linedist", name, nt, dim, h0, arr2.shape, arr2.tobytes().hex(), mask.tobytes().hex(),
+                  eps2), n > 1, {"kernel": name, "n_time": nt, "mode": mode, "hist": h0,
+                                 "array": list(arr2.shape)} if c % 23 == 0 else None)
+        ctx.count(f"line-dist:{'seq' if seq else 'matrix'}{'+mv' if mv else ''}:{mode}")
+    return reqs, model
+
+
 def needed_extent(info, sym, sc):
     """smallest extent the contract asks for (max over the `sym >= e` relations)"""
     need = 0
@@ -833,8 +947,11 @@ def shrink_req(q):
     return q
 
 
-def mi_model_request(an, nb=32):
-    """emulate mutual_info.py's preprocessing to obtain what reaches the kernel"""
+def mi_model_request(an, nb=32, objN=None):
+    """emulate mutual_info.py's preprocessing to obtain what reaches the kernel; with `objN` the
+    call is made on an object with that many nodes (driver request `call miobj`)"""
+    if objN is not None:
+        return mi_model_request(an, nb).replace("call mi ", f"call miobj {objN} ", 1)
     a = np.array(an, dtype=float)
     T, N = a.shape
     if a.size == 0:
@@ -954,6 +1071,14 @@ def oracle_stream(ctx, rng, nprng, quick):
     for N in (0, 1):
         for fn, args in (("vcfb", [0]), ("vcfb", [1]), ("ecfb", [])):
             add(fn, [A(np.zeros((N, N)), "float64")], args, f"N={N}")
+    # resistances of another size than the network, then the raw-pointer methods
+    for _ in range(6 if quick else 40):
+        N0 = rng.choice([2, 3, 4, 5])
+        N1 = rng.choice([n for n in (1, 2, 3, 4, 6, 8) if n != N0])
+        R0 = np.triu(nprng.randint(1, 5, size=(N0, N0)).astype(float), 1)
+        R1 = np.triu(nprng.randint(1, 5, size=(N1, N1)).astype(float), 1)
+        add("cfb_resize", [A(R0 + R0.T, "float64"), A(R1 + R1.T, "float64")],
+            [rng.randrange(max(N0, N1))], "resistances-" + ("larger" if N1 > N0 else "smaller"))
     # RecurrencePlot with adaptive neighbourhood size (public path of the while kernel)
     for _ in range(14 if quick else 100):
         n = rng.randrange(1, 8)
@@ -980,8 +1105,43 @@ def oracle_stream(ctx, rng, nprng, quick):
         if rng.random() < 0.3:
             arrs.append(A(np.cumsum(nprng.randint(1, 3, size=n)).astype(float), "float64"))
         add("visibility", arrs, [], "visibility:" + cls, kw=kw)
+    # node lists handed by the caller to the cross-network kernels (`A[nodes1[i], nodes2[j]]`): entries
+    # outside [0, N), negative, repeated, empty — an IndexError is a pass, a sanitizer report is not
+    for _ in range(8 if quick else 60):
+        n = rng.choice([2, 3, 4, 6, 8])
+        adj = np.triu((nprng.rand(n, n) < 0.5).astype(int), 1)
+        adj = adj + adj.T
+        bad = rng.choice(["negative", "N", "beyond", "repeated", "empty", "overlap"])
+        n1, n2 = list(range(n // 2)), list(range(n // 2, n))
+        if bad == "negative":
+            n1[rng.randrange(len(n1))] = rng.choice([-1, -n, -n - 1])
+        elif bad == "N":
+            n2[rng.randrange(len(n2))] = n
+        elif bad == "beyond":
+            n2.append(n + rng.randrange(1, 40))
+        elif bad == "repeated":
+            n1 = n1 + n1
+        elif bad == "empty":
+            n1 = []
+        else:
+            n2 = list(range(n))
+        add("sweep", [A(adj, "int8")], [], "interacting-node-lists:" + bad, kind="interacting",
+            kw={"n1": n1, "n2": n2}, timeout=30)
     if not quick:
         sweep_stream(lambda *a, **k: add(*a, timeout=30, **k), rng, nprng)
+    else:
+        # a few RQA objects also in the quick tier, so that the calls of the `_line_dist` wrappers made
+        # by recurrence_plot.py are recorded and tested against their contracts on every run
+        for k in range(6):
+            n = rng.choice([2, 3, 5, 8])
+            ts = nprng.randint(0, 4, size=(n, rng.choice([1, 2]))).astype(float)
+            kw = {"metric": "supremum", "threshold": 0.5}
+            if k % 2:
+                kw["sparse_rqa"] = True
+            if k % 3 == 0:
+                kw["missing_values"] = True
+                ts[nprng.rand(*ts.shape) < 0.2] = np.nan
+            add("sweep", [A(ts, "float64")], [1], "rp:quick", kind="rp", kw=kw, timeout=30)
     return reqs
 
 
